@@ -159,7 +159,7 @@ class Renderer:
             return a["param"]
         if "inline" in a:
             f = _fn(self.spec, a["inline"])
-            return self.sym(mod, a["inline"], f["module"], "from", imports) + "()"
+            return self.sym(mod, a["inline"], f["module"], "from", imports) + ("" if a.get("as_function") else "()")
         if "ml" in a:
             parts = [self.arg(x, mod, imports) for x in a["ml"]]
             return "(str(" + ")\n            + str(".join(parts) + "))"
@@ -332,7 +332,7 @@ class Renderer:
         def pstr(p):
             # '*rest' / '**kw' catch-all parameters
             return f"str(sorted({p[2:]}.items()))" if p.startswith("**") else f"str({p.lstrip('*')})"
-        parts = [pstr(p) for p, _ in f.get("params", [])] + [f"str(_{i})" for i in range(len(f.get("body", [])))]
+        parts = ([] if f.get("no_param_str") else [pstr(p) for p, _ in f.get("params", [])]) + [f"str(_{i})" for i in range(len(f.get("body", [])))]
         if f.get("cls"):
             parts.append("self.v")
             parts += [f"str(self.A{i})" for i in range(len(f.get("clsattr", [])))]
